@@ -18,15 +18,15 @@ EV_TFD_CREATE, EV_TFD_SETTIME, EV_EPOLL_CTL, EV_RC, EV_VIOL, EV_FIRE, EV_STEP, E
 VNAMES = {1: "fired-while-unregistered", 2: "fired-while-disabled", 3: "oneshot-fired-twice", 4: "dispatch-fired-without-reenable",
           5: "fired-without-condition", 6: "wrong-event-kind", 7: "eof-flag-missing", 8: "eof-flag-spurious", 9: "missing-callback",
           10: "callback-on-wrong-thread", 11: "well-formed-operation-refused", 12: "error-flag-spurious", 13: "proc-flags",
-          14: "descriptor-leak-after-deleting-everything"}
+          14: "descriptor-leak-after-deleting-everything", 15: "error-flag-missing-on-reset", 16: "error-code-on-reset"}
 KIND = ["read", "write", "timer", "proc"]
 TP_F_ONESHOT, TP_F_DISPATCH = 1, 2
 T_SEC, T_MSEC, T_USEC, T_NSEC, T_ABS = 0, 1, 2, 3, 4
 UNIT_NS = {T_SEC: 10 ** 9, T_MSEC: 10 ** 6, T_USEC: 10 ** 3, T_NSEC: 1}
 UNIT_NAME = {0: "s", 1: "ms", 2: "us", 3: "ns"}
 CLOCK_REALTIME, CLOCK_MONOTONIC, TFD_TIMER_ABSTIME = 0, 1, 1
-H_ADD, H_ENABLE, H_DISABLE, H_DELETE, H_READY, H_CLOSE_PEER, H_SPIN, H_CHECK = range(1, 9)
-HN = {1: "add", 2: "enable", 3: "disable", 4: "delete", 5: "ready", 6: "close-peer", 7: "spin", 8: "check"}
+H_ADD, H_ENABLE, H_DISABLE, H_DELETE, H_READY, H_CLOSE_PEER, H_SPIN, H_CHECK, H_ENABLE_NEWFLAGS, H_POISON = range(1, 11)
+HN = {1: "add", 2: "enable", 3: "disable", 4: "delete", 5: "ready", 6: "close-peer", 7: "spin", 8: "check", 9: "enable-newflags", 10: "poison"}
 
 
 def build_all(report, tier):
@@ -217,8 +217,10 @@ def gen_history(rng, tier):
             kinds[i] = k
             fl = rng.choice([0, 0, TP_F_ONESHOT, TP_F_DISPATCH])
             steps.append((H_ADD, i, k, fl, rng.below(1000)))
-        elif r < 35:
+        elif r < 30:
             steps.append((H_ENABLE, i, 0, 0, 0))
+        elif r < 35:
+            steps.append((H_ENABLE_NEWFLAGS, i, 0, rng.choice([0, 0, TP_F_ONESHOT, TP_F_DISPATCH]), 0))
         elif r < 50:
             steps.append((H_DISABLE, i, 0, 0, 0))
         elif r < 60:
@@ -227,8 +229,12 @@ def gen_history(rng, tier):
                 kinds.pop(i, None)
         elif r < 82:
             steps.append((H_READY, i, 0, 0, rng.below(1000)))
-        elif r < 88:
+        elif r < 85:
             steps.append((H_CLOSE_PEER, i, 0, 0, rng.below(1000)))
+        elif r < 88:
+            steps.append((H_POISON, i, 0, 0, 0))
+            if rng.below(2):
+                steps.append((H_CLOSE_PEER, i, 0, 0, 0))
         elif r < 94:
             steps.append((H_SPIN, 0, 0, 0, rng.below(8)))
         else:
